@@ -52,6 +52,21 @@ def matrix(tier):
         yield {"profile": "rdf", "ops": head + [["rec", 0, "entity", {"ns": c07.NSS[0][1], "local": "big", "prefix": "ex", "as": "qn"}, {},
                                                   [[{"ns": c07.NSS[0][1], "local": "k", "prefix": "ex", "as": "qn"}, {"k": "str", "v": big}]], "factory"]],
                "nonascii": "漢" * 3000 + "é", "cell": ["big", shift]}
+    # non-ASCII letters in NAMES (attribute local part, identifier): names cannot be written as character references
+    for i, nm in enumerate(["größe", "naïve", "漢字", "Ωmega"]):
+        yield {"profile": "rdf", "ops": head + [["rec", 0, "entity", {"ns": c07.NSS[0][1], "local": "e" + nm, "prefix": "ex", "as": "qn"}, {},
+                                                  [[{"ns": c07.NSS[i % 3][1], "local": nm, "prefix": c07.NSS[i % 3][0], "as": "qn"}, {"k": "str", "v": "v" + nm}]], "factory"]],
+               "nonascii": nm, "cell": ["non-ascii-names", nm]}
+    # what a fresh interpreter sees: another format (or none) used explicitly first, then prov.read() without a format
+    small = head + [["rec", 0, "entity", {"ns": c07.NSS[0][1], "local": "e1", "prefix": "ex", "as": "qn"}, {}, [], "factory"],
+                    ["rec", 0, "activity", {"ns": c07.NSS[1][1], "local": "a1", "prefix": "foo", "as": "qn"}, {}, [], "factory"],
+                    ["rec", 0, "generation", None, {"entity": {"name": {"ns": c07.NSS[0][1], "local": "e1", "prefix": "ex", "as": "qn"}},
+                                                      "activity": {"name": {"ns": c07.NSS[1][1], "local": "a1", "prefix": "foo", "as": "qn"}}}, [], "factory"]]
+    for first in ("-", "json", "xml", "rdf", "provn"):
+        for how in ("read", "write"):
+            if (first == "-" and how == "write") or (first == "provn" and how == "read"):
+                continue
+            yield {"profile": "rdf", "ops": small, "nonascii": "é漢", "fresh": [first, how], "cell": ["fresh-process", first, how]}
 
 
 def _it(b, **kw):
@@ -82,11 +97,61 @@ def _same_text(fmt, a, b):
     return False
 
 
+def fresh_process(case, ctx):
+    """prov.read() without a format in a fresh interpreter that has used at most one other format before"""
+    import pickle
+    import subprocess
+    import sys
+    b = build(c07.sanitise(case, ctx))
+    d = b.doc
+    want_bag = canon(d)
+    want_set = as_sets(canon(d.unified()))
+    wd = os.path.join(getattr(ctx, "workdir", "."), "fresh")
+    os.makedirs(wd, exist_ok=True)
+    files = {}
+    for fmt in ("json", "xml", "rdf"):
+        files[fmt] = os.path.join(wd, "doc." + fmt)
+        c07.deterministic_bnodes()
+        d.serialize(files[fmt], format=fmt)
+    first, how = case["fresh"]
+    items = []
+    for fmt in ("json", "xml", "rdf"):
+        out = os.path.join(wd, "out.pickle")
+        if os.path.exists(out):
+            os.remove(out)
+        cmd = [sys.executable, "-m", "pbt.io_child", out, first, files[first] if how == "read" and first != "-" else "-", fmt, files[fmt]]
+        p = subprocess.run(cmd, capture_output=True, text=True, timeout=300)
+        if p.returncode != 0 or not os.path.exists(out):
+            frames = [l for l in (p.stderr or "").splitlines() if l.strip().startswith('File "')]
+            if frames and "/prov/" in frames[-1] and "/pbt/" not in frames[-1]:
+                items.append(_it("fresh_process_failed:%s_then_%s" % (first, fmt), err=(p.stderr or "")[-300:]))
+                continue
+            raise RuntimeError("io_child failed: " + (p.stderr or "")[-500:])
+        with open(out, "rb") as f:
+            res = pickle.load(f)
+        for kind, (st_, val) in sorted(res.items()):
+            ctx.count("fresh:%s:%s" % (fmt, kind))
+            if st_ == "exc":
+                items.append(_it("read_fails_in_fresh_process:%s:%s" % (fmt, kind), after=first + ":" + how, err=val))
+            elif val is None:
+                items.append(_it("read_returned_none_in_fresh_process:%s:%s" % (fmt, kind), after=first + ":" + how))
+            else:
+                diff = diff_sets(want_set, as_sets(val)) if fmt == "rdf" else diff_canon(want_bag, val)
+                if diff:
+                    items.append(_it("content_differs:fresh:%s:%s" % (fmt, kind), first=diff[0]))
+    ctx.nontrivial(True)
+    for f in list(files.values()):
+        os.remove(f)
+    return items
+
+
 def check(case, ctx):
     import prov
     from prov.model import ProvDocument
     from ..runner import exc_item
     c07.deterministic_bnodes()
+    if case.get("fresh"):
+        return fresh_process(case, ctx)
     used = c07.sanitise(case, ctx)
     # force a non-ASCII value into the first record
     ops = list(used["ops"])
